@@ -74,8 +74,9 @@ def run(ctx):
         ctx.missing("C16.route", "GenericPolygon::with_rings")
         return
     fwr = wr[0]
-    closers = [g["def"] for g in F.identity_fns() if g["argc"] == 1 and "PolygonRing" in g["def"] and g["kind"] == "AssocFn"
-               and g["locals"][1]["ty"].startswith("&mut ")]
+    # candidates for the ring normaliser: any local function (method or free) of one `&mut PolygonRing<_>` argument
+    closers = [g["def"] for g in F.identity_fns() if g["argc"] == 1 and g.get("kind") != "Closure" and
+               g["locals"][1]["ty"].startswith("&mut record::polygon::PolygonRing")]
     ps, _ = util.run_fn(F, fwr, inline=lambda g, t: g["def"] not in closers)
     good = bool(ps)
     why = []
